@@ -5,7 +5,8 @@
 EXTENDS Integers, Sequences, FiniteSets, TLC
 
 CONSTANT Procs
-ExecOps == {"run", "minit", "rac"}
+ExecOps == {"run", "minit", "rac", "runr", "minitr", "racx", "minitc"}
+Fails(op) == op \in {"runr", "minitr", "racx", "minitc"}   \* admitted, then fails for its own reasons
 
 VARIABLES phase,    \* phase[p]: [k |-> "idle"] | [k |-> "called", op] | [k |-> "admitted", op] | [k |-> "finished", op, res]
           adm,      \* goroutines whose execution is admitted and not finished
@@ -38,7 +39,7 @@ Reject(p) == /\ phase[p].k = "called" /\ phase[p].op \in ExecOps /\ closed
              /\ phase' = [phase EXCEPT ![p] = P("finished", phase[p].op, "err")]
              /\ UNCHANGED <<adm, closed, cbs, done>>
 Finish(p) == /\ phase[p].k = "admitted"
-             /\ phase' = [phase EXCEPT ![p] = P("finished", phase[p].op, "ok")]
+             /\ phase' = [phase EXCEPT ![p] = P("finished", phase[p].op, IF Fails(phase[p].op) THEN "err" ELSE "ok")]
              /\ adm' = adm \ {p}
              /\ UNCHANGED <<closed, cbs, done>>
 (* some Close is in progress, nothing is admitted: the context becomes closed *)
